@@ -198,6 +198,9 @@ theorem step_tokW (s t : St) (f : Bool) (cfg : Cfg) (h3 : Fixed3 cfg)
   | clAcq _ i hi ht =>
     have l1 := le_tot tokW _ _ _ hi
     (try simp only [St.setDone, St.setBg, ↓reduceIte, Bool.false_eq_true, Bool.and_false, Bool.and_true, Bool.false_and, Bool.true_and]) <;> (repeat' split) <;> simp_all [tot_set_eq _ _ _ _ _ hi, tot_ackWs_tok, tot_ackWs_clk, tot_ackWs_trlk, tokW, b2n_true, b2n_false, bgClk_run, bgClk_idle, bgClk_exited, bgClk_parked, bgClk_clearW, bgClk_afterCmd, bphClk, St.bg, onOk, onErr, selNext, afterSetErr, srAllW, srW] <;> (try omega)
+  | clAcqKept _ i hi he hk hs =>
+    have l1 := le_tot tokW _ _ _ hi
+    (try simp only [St.setDone, St.setBg, ↓reduceIte, Bool.false_eq_true, Bool.and_false, Bool.and_true, Bool.false_and, Bool.true_and]) <;> (repeat' split) <;> simp_all [tot_set_eq _ _ _ _ _ hi, tot_ackWs_tok, tot_ackWs_clk, tot_ackWs_trlk, tokW, b2n_true, b2n_false, bgClk_run, bgClk_idle, bgClk_exited, bgClk_parked, bgClk_clearW, bgClk_afterCmd, bphClk, St.bg, onOk, onErr, selNext, afterSetErr, srAllW, srW] <;> (try omega)
   | clWait _ i hi hm ht =>
     have l1 := le_tot tokW _ _ _ hi
     (try simp only [St.setDone, St.setBg, ↓reduceIte, Bool.false_eq_true, Bool.and_false, Bool.and_true, Bool.false_and, Bool.true_and]) <;> (repeat' split) <;> simp_all [tot_set_eq _ _ _ _ _ hi, tot_ackWs_tok, tot_ackWs_clk, tot_ackWs_trlk, tokW, b2n_true, b2n_false, bgClk_run, bgClk_idle, bgClk_exited, bgClk_parked, bgClk_clearW, bgClk_afterCmd, bphClk, St.bg, onOk, onErr, selNext, afterSetErr, srAllW, srW] <;> (try omega)
